@@ -16,6 +16,7 @@ import (
 	"fmt"
 	"go/ast"
 	"go/token"
+	"net/textproto"
 	"sort"
 	"strconv"
 	"strings"
@@ -71,6 +72,23 @@ func lowerFirst(s string) string {
 	r := []rune(s)
 	r[0] = unicode.ToLower(r[0])
 	return string(r)
+}
+
+// http.CanonicalHeaderKey without importing net/http (stdlib net/textproto is enough)
+func textprotoCanon(k string) string { return textproto.CanonicalMIMEHeaderKey(k) }
+
+func recvOf(fd *ast.FuncDecl) string {
+	if fd.Recv == nil || len(fd.Recv.List) == 0 {
+		return ""
+	}
+	t := fd.Recv.List[0].Type
+	if st, ok := t.(*ast.StarExpr); ok {
+		t = st.X
+	}
+	if id, ok := t.(*ast.Ident); ok {
+		return id.Name
+	}
+	return ""
 }
 
 func norm(s string) string { return strings.Join(strings.Fields(s), " ") }
@@ -373,6 +391,11 @@ func c30(repo string, out *fg.Out) error {
 	if err != nil {
 		return err
 	}
+	for _, k := range append(append([]string{fwdBy}, hop...), cfh...) {
+		if textprotoCanon(k) != k {
+			return fmt.Errorf("header key %q in routing.go is not in http.CanonicalHeaderKey form (the lookup after canonicalisation can never match it)", k)
+		}
+	}
 	for _, nm := range []string{"isHopByHop", "isClientForwardingHeader"} {
 		e, _, fd, err := retExpr(api, "", nm)
 		if err != nil {
@@ -577,6 +600,9 @@ func c30(repo string, out *fg.Out) error {
 			if !ok {
 				return fmt.Errorf("doForward: unexpected value expression in %q", f.Text(c))
 			}
+			if textprotoCanon(k) != k {
+				return fmt.Errorf("doForward: header key %q is not in canonical form", k)
+			}
 			sets = append(sets, setH{k, src})
 		}
 		if len(sets) == 0 {
@@ -596,6 +622,7 @@ func c30(repo string, out *fg.Out) error {
 
 	// ---------------------------------------------------------------- handler sites
 	type hsite struct {
+		Recv     string `json:"recv"`
 		File     string `json:"file"`
 		Func     string `json:"func"`
 		Decision string `json:"decision"`
@@ -721,7 +748,7 @@ func c30(repo string, out *fg.Out) error {
 				if !seen["ForwardAlreadyForwarded"] || !seen["ForwardToPeer"] || route == "" {
 					return fmt.Errorf("%s: routing switch lacks a case or a route call (cases %v, route %q)", where, seen, route)
 				}
-				sites = append(sites, hsite{f.Path, fd.Name.Name, dn, route})
+				sites = append(sites, hsite{recvOf(fd), f.Path, fd.Name.Name, dn, route})
 			}
 		}
 	}
@@ -749,6 +776,106 @@ func c30(repo string, out *fg.Out) error {
 	}
 	if nUses != len(sites) {
 		return fmt.Errorf("%d uses of the forward-decision helpers in internal/api but %d recognised handler sites", nUses, len(sites))
+	}
+
+	// ---------------------------------------------------------------- routes of the five data handlers
+	// Every `app.<Verb>("path", …, h.X)` in a method of these receivers; `routed` = X is one of the handler
+	// sites above or calls (directly, same receiver, depth <= 3) a method that is.
+	type routeT struct {
+		Recv   string `json:"recv"`
+		Route  string `json:"route"` // "METHOD path"
+		Func   string `json:"func"`
+		Routed bool   `json:"routed"`
+	}
+	dataRecvs := []string{"MsgPackHandler", "LineProtocolHandler", "TLEHandler", "QueryHandler", "ImportHandler"}
+	siteSet := map[string]bool{}
+	for _, s := range sites {
+		siteSet[s.Recv+"."+s.Func] = true
+	}
+	methods := map[string]*ast.FuncDecl{}
+	for _, f := range api {
+		for _, d := range f.AST.Decls {
+			if fd, ok := d.(*ast.FuncDecl); ok && fd.Body != nil && recvOf(fd) != "" {
+				methods[recvOf(fd)+"."+fd.Name.Name] = fd
+			}
+		}
+	}
+	var reaches func(recv, fn string, depth int) bool
+	reaches = func(recv, fn string, depth int) bool {
+		if siteSet[recv+"."+fn] {
+			return true
+		}
+		fd := methods[recv+"."+fn]
+		if fd == nil || depth == 0 {
+			return false
+		}
+		rn := fd.Recv.List[0].Names[0].Name
+		found := false
+		ast.Inspect(fd.Body, func(n ast.Node) bool {
+			c, ok := n.(*ast.CallExpr)
+			if !ok {
+				return true
+			}
+			if sel, ok := c.Fun.(*ast.SelectorExpr); ok {
+				if id, ok := sel.X.(*ast.Ident); ok && id.Name == rn && sel.Sel.Name != fn {
+					if reaches(recv, sel.Sel.Name, depth-1) {
+						found = true
+					}
+				}
+			}
+			return true
+		})
+		return found
+	}
+	verbs := map[string]string{"Get": "GET", "Post": "POST", "Put": "PUT", "Delete": "DELETE", "Patch": "PATCH", "Head": "HEAD", "All": "ALL"}
+	var routes []routeT
+	for _, f := range api {
+		for _, d := range f.AST.Decls {
+			fd, ok := d.(*ast.FuncDecl)
+			if !ok || fd.Body == nil || !has(dataRecvs, recvOf(fd)) {
+				continue
+			}
+			recv := recvOf(fd)
+			var rerr error
+			ast.Inspect(fd.Body, func(n ast.Node) bool {
+				c, ok := n.(*ast.CallExpr)
+				if !ok {
+					return true
+				}
+				sel, ok := c.Fun.(*ast.SelectorExpr)
+				if !ok || verbs[sel.Sel.Name] == "" || len(c.Args) < 2 {
+					return true
+				}
+				if id, ok := sel.X.(*ast.Ident); !ok || id.Name != "app" {
+					return true
+				}
+				path, ok := unq(c.Args[0])
+				if !ok {
+					rerr = fmt.Errorf("%s.%s: route with a non-literal path: %s", recv, fd.Name.Name, f.Text(c))
+					return true
+				}
+				hsel, ok := c.Args[len(c.Args)-1].(*ast.SelectorExpr)
+				if !ok {
+					rerr = fmt.Errorf("%s.%s: route %q whose final handler is not a method value: %s", recv, fd.Name.Name, path, f.Text(c))
+					return true
+				}
+				routes = append(routes, routeT{recv, verbs[sel.Sel.Name] + " " + path, hsel.Sel.Name, reaches(recv, hsel.Sel.Name, 3)})
+				return true
+			})
+			if rerr != nil {
+				return rerr
+			}
+		}
+	}
+	sort.Slice(routes, func(i, j int) bool { return routes[i].Recv+" "+routes[i].Route < routes[j].Recv+" "+routes[j].Route })
+	nRouted := 0
+	for _, r := range routes {
+		if r.Routed {
+			nRouted++
+		}
+	}
+	if nRouted < len(sites) {
+		return fmt.Errorf("only %d routes reach the %d handler sites that carry the routing prologue", nRouted, len(sites))
 	}
 
 	// ---------------------------------------------------------------- emit
@@ -834,6 +961,16 @@ func c30(repo string, out *fg.Out) error {
 		}
 		fmt.Fprintf(w, "  (%s, %s, %s)%s\n", fg.LeanStr(s.File+":"+s.Func), fg.LeanStr(s.Decision), fg.LeanStr(s.Route), sep)
 	}
+	fmt.Fprintf(w, "]\n")
+	fmt.Fprintf(w, "/-- (receiver, \"METHOD path\", handler method, handler reaches the routing prologue) for every route registered by the msgpack / line-protocol / TLE / query / import handlers -/\n")
+	fmt.Fprintf(w, "def routes : List (String × String × String × Bool) := [\n")
+	for i, r := range routes {
+		sep := ","
+		if i == len(routes)-1 {
+			sep = ""
+		}
+		fmt.Fprintf(w, "  (%s, %s, %s, %s)%s\n", fg.LeanStr(r.Recv), fg.LeanStr(r.Route), fg.LeanStr(r.Func), b(r.Routed), sep)
+	}
 	fmt.Fprintf(w, "]\nend Arc.Generated.C30\n")
 
 	var roles []map[string]string
@@ -856,5 +993,6 @@ func c30(repo string, out *fg.Out) error {
 	out.JSON["inline_filtered"] = inlineFiltered
 	out.JSON["forward_sets"] = sets
 	out.JSON["handler_sites"] = sites
+	out.JSON["routes"] = routes
 	return nil
 }
